@@ -64,6 +64,12 @@ def _levels(tier):
                                G.chains(2, G.CORE, F1))))
     L.append(('chains d<=1 / full patterns x all forms, all distractors', 'list+mix',
               lambda: _cat(G.chains(0, G.FULL, G.FORMS), G.chains(1, G.FULL, G.FORMS))))
+    # several bindings / uses of one scope on ONE physical line (`x = 1; u(1, x); x = 2`): the
+    # order of definitions inside a line matters (seeded change C03-w4-1)
+    L.append(('chains d<=1 / full patterns x all forms, statements joined by `;`', 'list+semi',
+              lambda: _cat(G.chains(0, G.FULL, G.FORMS), G.chains(1, G.FULL, G.FORMS))))
+    L.append(('chains d=2 / core patterns, assign, statements joined by `;`', 'list+semi',
+              lambda: G.chains(2, G.CORE, F1)))
     # first iterable of a comprehension that STARTS with the identifier (`x`, `x.copy()`, `x[0]`;
     # target `_` or `x` itself), in every enclosing scope kind and comprehension flavour
     for st in ('list', 'gen', 'set', 'dict'):
